@@ -428,10 +428,39 @@ def shard(ctx, shard_no, nshards, n):
         core.run_hypothesis(ctx, 'event', from_tape(gen_event_case, 192), body_e, n // 2)
 
 
+def alias_binder_table():
+    """Aliased events whose predicate binds the alias name again: as the only use, next to a free use, below an outer
+    quantifier next to a free use (in either order), with the alias in an outer domain, bound throughout, three levels."""
+    from hplverif.mast import binop, own
+
+    zero = ('lit', 'int', '0')
+    gt = lambda a, b: binop('>', a, b)  # noqa: E731
+    X, Y, Z = ('var', 'x'), ('var', 'y'), ('var', 'z')
+    free = gt(('field', X, 'f'), zero)
+    out = []
+    for q1 in ('forall', 'exists'):
+        for q2 in ('forall', 'exists'):
+            inner = ('q', q2, 'x', own('zs'), gt(X, Y))
+            out += [
+                ('q', q1, 'x', own('xs'), gt(X, zero)),
+                binop('and', free, ('q', q1, 'x', own('xs'), gt(X, zero))),
+                binop('or', ('q', q1, 'x', own('xs'), gt(X, zero)), free),
+                ('q', q1, 'y', own('ys'), binop('and', inner, gt(('field', X, 'f'), Y))),
+                ('q', q1, 'y', own('ys'), binop('or', gt(('field', X, 'f'), Y), inner)),
+                ('q', q1, 'y', ('field', X, 'ys'), inner),
+                ('q', q1, 'x', own('zs'), ('q', q2, 'y', own('ys'), gt(X, Y))),
+                ('q', q1, 'y', own('ys'), ('q', q2, 'z', own('zs'), gt(('field', X, 'f'), binop('+', Z, Y)))),
+                ('q', q1, 'y', own('ys'), ('q', q2, 'z', own('zs'), binop('and', ('q', 'exists', 'x', own('xs'), gt(X, Z)), gt(('field', X, 'f'), Y)))),
+            ]
+    for pred in out:
+        for alias in ('x', None):
+            yield {'ev': ('ev', 't', alias, pred), 'nest': 0}
+
+
 def gen_event_case(ch):
     from hplverif.checks import c02
 
-    if ch.int(0, 2) == 0:
+    if ch.int(0, 1) == 0:
         # an aliased event whose predicate draws quantifier variables, free references and the own alias from one pool of
         # names (shadowing, re-binding below an outer quantifier, the own alias free next to a binder of the same name)
         m = c02.gen_shadow_case(ch)['m']
@@ -445,6 +474,14 @@ def gen_event_case(ch):
 def run(ctx):
     with ctx.timed('table'):
         run_table(ctx)
+    with ctx.timed('alias-binder-table'):
+        for inp in alias_binder_table():
+            try:
+                ev = sub_event(inp)
+            except Violation as v:
+                ctx.report(v)
+                ev = True
+            ctx.case(('alias-binder', mast.render(inp['ev'])), True, 'alias-binder-table:' + ('built' if ev is not None else 'rejected'))
     if ctx.tier == 'quick':
         core.run_sharded(ctx, __name__, 'shard', 1, (1500,))
     else:
